@@ -149,6 +149,9 @@ func vPrioGen(o *vOut, r *vRand, thorough bool, _ []string, emit func(string)) {
 					}
 					for _, rp := range rps {
 						cand(ty, tcp, v6, tt, rp, false, 0, 1)
+						for _, comp := range comps { // every component boundary for every kind of candidate
+							cand(ty, tcp, v6, tt, rp, true, 0, comp)
+						}
 						for _, off := range offs {
 							if !tcp && off > 3 {
 								continue // the offset is read only for TCP candidates; a few are kept as a control
